@@ -26,11 +26,12 @@ import (
 const command = "c09-typegraph"
 
 type kase struct {
-	no    int
-	g     *tg.Graph
-	roots []*tg.Node // schema i's root node
-	names []string   // schema i's file name
-	self  []bool
+	linked bool // every type object has every type added as well (tgraph.Req.Linked)
+	no     int
+	g      *tg.Graph
+	roots  []*tg.Node // schema i's root node
+	names  []string   // schema i's file name
+	self   []bool
 }
 
 func mkCase(no int, g *tg.Graph) *kase {
@@ -100,6 +101,40 @@ func instance(g *tg.Graph, n *tg.Node, depth int, r *rand.Rand) string {
 	return "1"
 }
 
+var reKey1304 = regexp.MustCompile(`^E1304 Key shortcut "([^"]*)"`)
+
+// keyResolvesToString: following aliases / or-lists from the key type, no type is missing, no alias
+// cycle is reachable and every non-alias type reached has a string literal as its root. Then the key
+// shortcut is string-typed whatever the order of members and however often a target is shared.
+func keyResolvesToString(g *tg.Graph, key string) bool {
+	state := map[string]int{} // 1 = on path, 2 = done
+	var visit func(t string) bool
+	visit = func(t string) bool {
+		switch state[t] {
+		case 1:
+			return false
+		case 2:
+			return true
+		}
+		b := g.Type(t)
+		if b == nil {
+			return false
+		}
+		if b.Kind != tg.KRef {
+			return b.Kind == tg.KLit && strings.HasPrefix(b.Lit, `"`)
+		}
+		state[t] = 1
+		for _, m := range b.Names {
+			if !visit(m) {
+				return false
+			}
+		}
+		state[t] = 2
+		return true
+	}
+	return visit(key)
+}
+
 var reNotFound = regexp.MustCompile(`^E1302 Type "([^"]*)" not found`)
 
 // classify maps Check()'s rendered verdict to the classes of the mirror.
@@ -115,6 +150,9 @@ func classify(s string) (class, name string) {
 	case strings.HasPrefix(s, "E1303 "):
 		return "E1303", ""
 	case strings.HasPrefix(s, "E1304 "):
+		if m := reKey1304.FindStringSubmatch(s); m != nil {
+			return "E1304", m[1]
+		}
 		return "E1304", ""
 	case strings.HasPrefix(s, "E703 "):
 		return "E703", ""
@@ -262,6 +300,9 @@ func features(g *tg.Graph, rep *vh.Report) (edges int) {
 func replay(k *kase, i int) string {
 	var sb strings.Builder
 	fmt.Fprintf(&sb, "schema under Check: jschema.New(%q, text) with text =\n%s\n", k.names[i], k.roots[i].Text())
+	if k.linked {
+		sb.WriteString("LINKED universe: one jschema.New(name, text) per type, every type AddType'd to every type (itself included) and to the schema under Check\n")
+	}
 	sb.WriteString("AddType (fresh jschema.New(name, text) each")
 	if k.self[i] {
 		sb.WriteString("; " + k.names[i] + " = the schema itself")
@@ -276,28 +317,10 @@ func replay(k *kase, i int) string {
 // debugging aid: `vh c09-typegraph --skip=C09-false-reject,…` drops the diffs of these components
 var skip = map[string]bool{}
 
-// addDiff: every unclassified diff goes into the report; of each known-finding class only the first
-// maxPerClass witnesses do (the report keeps 25 diffs: classified ones must never crowd out an
-// unclassified one); all of them are counted in stats and in Extra["classified_diffs_total"].
-const maxPerClass = 3
-
-var perClass = map[string]int{}
-
+// addDiff: vh.Report keeps a few witnesses per (component, level, class) and counts every diff per class.
 func addDiff(rep *vh.Report, d vh.Diff) {
 	if skip[d.Component] || (d.Class != "" && skip[d.Class]) {
 		return
-	}
-	if d.Class != "" {
-		perClass[d.Class]++
-		total := 0
-		for _, n := range perClass {
-			total += n
-		}
-		rep.Extra["classified_diffs_total"] = fmt.Sprint(total)
-		rep.Extra["diffs_of_"+d.Class] = fmt.Sprint(perClass[d.Class])
-		if perClass[d.Class] > maxPerClass {
-			return
-		}
 	}
 	rep.AddDiff(d)
 }
@@ -314,7 +337,7 @@ func Run(args []string) {
 			}
 		}
 	}
-	rep := vh.NewReport(command, "type graphs: quick = random graphs over 1..6 user types + up to 2 MISSING names, bodies object/array/alias/or-shortcut/literal with {type}/{or}, properties required/optional/nullable, array items, key shortcuts, allOf (string and list), additionalProperties; thorough adds the bounded-exhaustive one-template-per-type family (19 one-reference templates x all targets: every graph over 1 and 2 types incl. a missing target and both member orders, 14 templates over 3 types, 6 templates {leaf, required, optional, array item, or-shortcut alias, alias} over 4 types). Each graph is compiled as root schema + every type as its own root. nontrivial = at least one type body references a type")
+	rep := vh.NewReport(command, "type graphs: quick = 10k random graphs over 1..6 user types + up to 2 MISSING names + 8k dense graphs (3..4 types: two/three-reference objects, aliases, or-lists) + 4k key-shortcut graphs (key types = string literals / aliases / or-lists over shared targets); every 2nd/3rd case LINKED (every type object has every type added too), the others with plain type objects; bodies object/array/alias/or-shortcut/literal with {type}/{or}, properties required/optional/nullable, array items, key shortcuts, allOf (string and list), additionalProperties; thorough adds the bounded-exhaustive one-template-per-type family (19 one-reference templates x all targets: every graph over 1 and 2 types incl. a missing target and both member orders, 14 templates over 3 types, 6 templates {leaf, required, optional, array item, or-shortcut alias, alias} over 4 types). Each graph is compiled as root schema + every type as its own root. nontrivial = at least one type body references a type")
 	seed := vh.Seed()
 	workers := runtime.NumCPU()
 	if workers > 16 {
@@ -324,10 +347,12 @@ func Run(args []string) {
 	cases := map[int]*kase{}
 	var casesMu sync.Mutex
 	emitNo := 0
+	linkedNext := false
 	emit := func(g *tg.Graph, r *rand.Rand) {
 		k := mkCase(emitNo, g)
 		emitNo++
-		req := &tg.Req{ID: k.no, Example: true}
+		k.linked = linkedNext
+		req := &tg.Req{ID: k.no, Example: true, Linked: k.linked}
 		for i := range k.roots {
 			req.Schemas = append(req.Schemas, tg.SchemaReq{Name: k.names[i], Text: k.roots[i].Text(), SelfAdd: k.self[i]})
 		}
@@ -348,8 +373,20 @@ func Run(args []string) {
 		nRandom := vh.Pick(10000, 250000)
 		for i := 0; i < nRandom; i++ {
 			r := rand.New(rand.NewSource(seed*1000003 + 909 + int64(i)*7919))
+			linkedNext = i%3 == 0
 			emit(RandomGraph(r, 6, Options{Missing: true}), r)
 		}
+		for i, n := 0, vh.Pick(8000, 200000); i < n; i++ {
+			r := rand.New(rand.NewSource(seed*1000003 + 911 + int64(i)*7919))
+			linkedNext = i%2 == 0
+			emit(DenseGraph(r), r)
+		}
+		for i, n := 0, vh.Pick(4000, 100000); i < n; i++ {
+			r := rand.New(rand.NewSource(seed*1000003 + 912 + int64(i)*7919))
+			linkedNext = i%2 == 0
+			emit(KeyGraph(r), r)
+		}
+		linkedNext = false
 		if vh.Tier() == "thorough" {
 			r := vh.NewRand(910)
 			family(1, true, allTemplates(), []int{3, 8, 14, 15}, func(g *tg.Graph) { emit(g, r) })
@@ -424,7 +461,7 @@ func evaluate(rep *vh.Report, k *kase, res tg.Res) bool {
 			addDiff(rep, vh.Diff{Component: "C09-crash", Input: replay(k, i), Impl: s.Check, Model: "Check returns an error value"})
 			continue
 		}
-		pred := Predict(g, k.names[i], root, k.self[i])
+		pred := Predict(g, k.names[i], root, k.self[i], k.linked)
 		if pred.class != "OK" {
 			mirrorAccepts = false
 		}
@@ -451,6 +488,10 @@ func evaluate(rep *vh.Report, k *kase, res tg.Res) bool {
 		}
 		if len(missing) > 0 && class != "E1302" && class != "OK" {
 			rep.Stat("missing_masked_by_earlier_error")
+		}
+		// key shortcuts: the recursion guard of the key-type resolution must not reject a legal (acyclic, all-string) key type
+		if class == "E1304" && name != "" && keyResolvesToString(g, name) {
+			addDiff(rep, vh.Diff{Component: "C09-false-reject", Input: replay(k, i), Impl: s.Check, Model: "key shortcut " + name + ": no alias cycle is reachable from it and every alternative resolves to a string type: Check must accept the key shortcut"})
 		}
 		// as-coded correspondence
 		if class != pred.class || (class == "E1302" && pred.name != "" && pred.name != name) {
